@@ -29,6 +29,7 @@ import (
 
 	"github.com/prometheus/prometheus/model/histogram"
 	"github.com/prometheus/prometheus/model/labels"
+	"github.com/prometheus/prometheus/model/value"
 	"github.com/prometheus/prometheus/storage"
 	"github.com/prometheus/prometheus/tsdb"
 	"github.com/prometheus/prometheus/tsdb/chunkenc"
@@ -70,20 +71,220 @@ type smp struct {
 
 func (s smp) String() string { return fmt.Sprintf("%d:%c:%d", s.t, s.kind, s.payload) }
 
+// Histogram payloads: payload = 4*body + counterResetHint,
+// body = zeroCount + b0<<20 + b1<<24 + b2<<28 + schema<<32 + stale<<33 (zeroCount < 2^20, three positive
+// buckets b_i < 16 at indexes 0..2, present iff non-zero, schema 0|1); Count = zeroCount+b0+b1+b2 = Sum;
+// a stale marker is {Sum: StaleNaN}. Bits from 40 up flag a decoded histogram outside this family.
+const (
+	hbSchema = uint64(1) << 32
+	hbStale  = uint64(1) << 33
+	hbBad    = uint64(1) << 40
+)
+
+func hbParts(b uint64) (z uint64, spans []histogram.Span, cs []uint64, cnt uint64) {
+	z = b & (1<<20 - 1)
+	cnt = z
+	last := -1
+	for i := 0; i < 3; i++ {
+		c := (b >> (20 + 4*uint(i))) & 15
+		if c == 0 {
+			continue
+		}
+		if last >= 0 && last == i-1 {
+			spans[len(spans)-1].Length++
+		} else {
+			off := int32(i)
+			if last >= 0 {
+				off = int32(i - last - 1)
+			}
+			spans = append(spans, histogram.Span{Offset: off, Length: 1})
+		}
+		cs = append(cs, c)
+		cnt += c
+		last = i
+	}
+	return z, spans, cs, cnt
+}
+
 func mkHist(p uint64) *histogram.Histogram {
-	id := p / 4
+	b, hint := p/4, histogram.CounterResetHint(p%4)
+	if b&hbStale != 0 {
+		return &histogram.Histogram{CounterResetHint: hint, Sum: math.Float64frombits(value.StaleNaN)}
+	}
+	z, spans, cs, cnt := hbParts(b)
+	var deltas []int64
+	prev := int64(0)
+	for _, c := range cs {
+		deltas = append(deltas, int64(c)-prev)
+		prev = int64(c)
+	}
 	return &histogram.Histogram{
-		CounterResetHint: histogram.CounterResetHint(p % 4),
-		Schema:           0, ZeroThreshold: 0.001, ZeroCount: id, Count: id, Sum: float64(id),
+		CounterResetHint: hint,
+		Schema:           int32(b >> 32 & 1), ZeroThreshold: 0.001, ZeroCount: z, Count: cnt, Sum: float64(cnt),
+		PositiveSpans: spans, PositiveBuckets: deltas,
 	}
 }
 
 func mkFHist(p uint64) *histogram.FloatHistogram {
-	id := float64(p / 4)
-	return &histogram.FloatHistogram{
-		CounterResetHint: histogram.CounterResetHint(p % 4),
-		Schema:           0, ZeroThreshold: 0.001, ZeroCount: id, Count: id, Sum: id,
+	b, hint := p/4, histogram.CounterResetHint(p%4)
+	if b&hbStale != 0 {
+		return &histogram.FloatHistogram{CounterResetHint: hint, Sum: math.Float64frombits(value.StaleNaN)}
 	}
+	z, spans, cs, cnt := hbParts(b)
+	var bs []float64
+	for _, c := range cs {
+		bs = append(bs, float64(c))
+	}
+	return &histogram.FloatHistogram{
+		CounterResetHint: hint,
+		Schema:           int32(b >> 32 & 1), ZeroThreshold: 0.001, ZeroCount: float64(z), Count: float64(cnt), Sum: float64(cnt),
+		PositiveSpans: spans, PositiveBuckets: bs,
+	}
+}
+
+// hbEncode renders a decoded histogram (absolute bucket counts) back into a payload; empty buckets that a
+// recoded chunk added to the layout are dropped (present iff non-zero).
+func hbEncode(hint histogram.CounterResetHint, stale bool, schema int32, zth, z, cnt, sum float64, spans []histogram.Span, abs []float64, nneg int) uint64 {
+	if stale {
+		return hbStale*4 + uint64(hint)
+	}
+	var b uint64
+	bad := false
+	if z < 0 || z >= 1<<20 || z != math.Trunc(z) {
+		bad = true
+	} else {
+		b = uint64(z)
+	}
+	total := z
+	idx, k := int32(0), 0
+	for _, sp := range spans {
+		idx += sp.Offset
+		for j := uint32(0); j < sp.Length; j++ {
+			if k >= len(abs) {
+				bad = true
+				break
+			}
+			v := abs[k]
+			k++
+			if v != 0 {
+				if idx < 0 || idx > 2 || v < 0 || v > 15 || v != math.Trunc(v) {
+					bad = true
+				} else {
+					b |= uint64(v) << (20 + 4*uint(idx))
+				}
+			}
+			total += v
+			idx++
+		}
+	}
+	if k != len(abs) || nneg != 0 || schema < 0 || schema > 1 || zth != 0.001 || cnt != total || sum != total {
+		bad = true
+	}
+	if schema == 1 {
+		b |= hbSchema
+	}
+	if bad {
+		b |= hbBad
+	}
+	return b*4 + uint64(hint)
+}
+
+func histPayload(hh *histogram.Histogram) uint64 {
+	abs := make([]float64, len(hh.PositiveBuckets))
+	cur := int64(0)
+	for i, d := range hh.PositiveBuckets {
+		cur += d
+		abs[i] = float64(cur)
+	}
+	return hbEncode(hh.CounterResetHint, value.IsStaleNaN(hh.Sum), hh.Schema, hh.ZeroThreshold, float64(hh.ZeroCount), float64(hh.Count), hh.Sum,
+		hh.PositiveSpans, abs, len(hh.NegativeSpans)+len(hh.NegativeBuckets))
+}
+
+func fhistPayload(fh *histogram.FloatHistogram) uint64 {
+	return hbEncode(fh.CounterResetHint, value.IsStaleNaN(fh.Sum), fh.Schema, fh.ZeroThreshold, fh.ZeroCount, fh.Count, fh.Sum,
+		fh.PositiveSpans, fh.PositiveBuckets, len(fh.NegativeSpans)+len(fh.NegativeBuckets))
+}
+
+// ---- counter-histogram streams
+
+// ctrState is one point of a counter process: zero count and three bucket counts.
+type ctrState struct {
+	z      uint64
+	c      [3]uint64
+	schema uint64
+}
+
+func (s ctrState) body() uint64 {
+	return s.z | s.c[0]<<20 | s.c[1]<<24 | s.c[2]<<28 | s.schema<<32
+}
+
+// genCounterChunk returns the payloads of one VALID counter-histogram chunk of n samples (a sequence
+// chunks.ChunkFromSamples encodes into a single chunk without recoding): one schema, one fixed set of used
+// buckets (all counts > 0 from the first sample on), every count non-decreasing, optionally a suffix of
+// stale markers. style 0: random start and increments (independent of other chunks, so that the merged
+// stream of overlapping chunks has counter resets, disappearing buckets and schema changes inside the
+// overlap); style 1: counts are a fixed non-decreasing function of the timestamp (chunks of the same
+// process interleave without reset; different bucket sets then only recode).
+func genCounterChunk(r *h.Rng, ts []int64, base int64, style int, allowStale bool) []uint64 {
+	n := len(ts)
+	st := ctrState{schema: 0}
+	if r.Chance(15) {
+		st.schema = 1
+	}
+	var used [3]bool
+	for i := range used {
+		used[i] = r.Chance(50)
+	}
+	nStale := 0
+	if allowStale && r.Chance(25) {
+		nStale = 1 + r.Intn(2)
+		if nStale > n {
+			nStale = n
+		}
+		if r.Chance(10) {
+			nStale = n
+		}
+	}
+	out := make([]uint64, 0, n)
+	if style == 0 {
+		st.z = uint64(r.Intn(6))
+		for i := range used {
+			if used[i] {
+				st.c[i] = uint64(1 + r.Intn(5))
+			}
+		}
+	}
+	for k, t := range ts {
+		if k >= n-nStale {
+			out = append(out, hbStale*4+uint64(2*r.Intn(2)))
+			continue
+		}
+		if style == 1 {
+			d := uint64(t - base)
+			if t < base {
+				d = 0
+			}
+			st.z = d
+			for i := range used {
+				st.c[i] = 0
+				if used[i] {
+					st.c[i] = 1 + d/4
+					if st.c[i] > 15 {
+						st.c[i] = 15
+					}
+				}
+			}
+		} else if k > 0 {
+			st.z += uint64(r.Intn(3))
+			for i := range used {
+				if used[i] && st.c[i] < 15 && r.Chance(40) {
+					st.c[i]++
+				}
+			}
+		}
+		out = append(out, st.body()*4+uint64(2*r.Intn(2)))
+	}
+	return out
 }
 
 type csample struct{ s smp }
@@ -133,10 +334,10 @@ func readAll(it chunkenc.Iterator) ([]smp, error) {
 			out = append(out, smp{t, 'f', math.Float64bits(v)})
 		case chunkenc.ValHistogram:
 			t, hh := it.AtHistogram(nil)
-			out = append(out, smp{t, 'h', hh.Count*4 + uint64(hh.CounterResetHint)})
+			out = append(out, smp{t, 'h', histPayload(hh)})
 		case chunkenc.ValFloatHistogram:
 			t, fh := it.AtFloatHistogram(nil)
-			out = append(out, smp{t, 'H', uint64(fh.Count)*4 + uint64(fh.CounterResetHint)})
+			out = append(out, smp{t, 'H', fhistPayload(fh)})
 		}
 	}
 	return out, it.Err()
@@ -418,7 +619,16 @@ func readBlock(b tsdb.BlockReader, st tsdb.BlockStats) (string, error) {
 		var parts []string
 		for cit.Next() {
 			m := cit.At()
-			parts = append(parts, fmt.Sprintf("%d/%d/%d", m.MinTime, m.MaxTime, m.Chunk.NumSamples()))
+			// the chunk decoded on its own: first/last timestamp it really holds
+			first, last := "-", "-"
+			dxs, derr := readAll(m.Chunk.Iterator(nil))
+			if derr != nil {
+				return "", derr
+			}
+			if len(dxs) > 0 {
+				first, last = strconv.FormatInt(dxs[0].t, 10), strconv.FormatInt(dxs[len(dxs)-1].t, 10)
+			}
+			parts = append(parts, fmt.Sprintf("%d/%d/%d/%s/%s", m.MinTime, m.MaxTime, m.Chunk.NumSamples(), first, last))
 		}
 		if err := cit.Err(); err != nil {
 			return "", err
@@ -787,7 +997,7 @@ func genValue(si int, t int64, variant int) float64 {
 	return float64(int64(si)*1000+t) + float64(variant)*0.5
 }
 
-func genSeries(r *h.Rng, si int, lbl string, lo, hi int64, bi int, dense bool, histOK bool) serT {
+func genSeries(r *h.Rng, si int, lbl string, lo, hi int64, bi int, dense bool, histOK bool, ctrKind byte) serT {
 	n := 1 + r.Intn(14)
 	if dense {
 		n = 100 + r.Intn(80)
@@ -812,6 +1022,22 @@ func genSeries(r *h.Rng, si int, lbl string, lo, hi int64, bi int, dense bool, h
 			}
 		}
 		ch := chunkT{mint: ts[i], maxt: ts[i+k-1]}
+		if ctrKind != 0 {
+			// a COUNTER (non-gauge) histogram series: every chunk is one valid counter chunk (monotone counts,
+			// fixed bucket set, optional stale suffix); chunks of different blocks are independent, so the
+			// merged stream of overlapping blocks has resets / vanished buckets / schema changes / stale→live
+			// transitions inside the overlap
+			ps := genCounterChunk(r, ts[i:i+k], lo, r.Intn(2), true)
+			for q, t := range ts[i : i+k] {
+				ch.xs = append(ch.xs, smp{t, ctrKind, ps[q]})
+			}
+			if _, err := chunks.ChunkFromSamples(toChunkSamples(ch.xs)); err != nil {
+				panic("generator: invalid counter chunk: " + err.Error() + " " + showSamples(ch.xs))
+			}
+			s.chunks = append(s.chunks, ch)
+			i += k
+			continue
+		}
 		for _, t := range ts[i : i+k] {
 			variant := 0
 			if conflict && r.Chance(40) {
@@ -941,6 +1167,17 @@ func genBlockCase(c *rec, r *h.Rng) []string {
 	pool = pool[:nser]
 	sort.Slice(pool, func(a, b int) bool { return labels.Compare(parseLabels(pool[a]), parseLabels(pool[b])) < 0 })
 	histOK := r.Chance(35)
+	// counter-histogram series: fixed flavour per label set, the same in every block, so that overlapping
+	// blocks make the compacting merger re-encode merged counter streams
+	ctrKinds := make([]byte, len(pool))
+	if r.Chance(45) {
+		c.Count("counter-hist-case")
+		for i := range ctrKinds {
+			if r.Chance(60) {
+				ctrKinds[i] = h.Pick(r, []byte{'h', 'H'})
+			}
+		}
+	}
 	anyTomb, anyLeak := false, false
 	for bi := range blocks {
 		b := &blocks[bi]
@@ -965,7 +1202,7 @@ func genBlockCase(c *rec, r *h.Rng) []string {
 				}
 			}
 			if s.lbl == "" {
-				s = genSeries(r, si, lbl, lo, hi, bi, dense, histOK)
+				s = genSeries(r, si, lbl, lo, hi, bi, dense, histOK, ctrKinds[si])
 			}
 			if len(s.chunks) == 0 {
 				continue
